@@ -838,7 +838,9 @@ class DotGeneralPlugin(PrimitiveLeafPlugin):
         for axis in rhs_free:
             rhs_out_order.append(rhs_lbl[axis])
 
-        if not lhs_contract and not rhs_contract:
+        if not lhs_contract and not rhs_contract and not lhs_batch:
+            # plain outer product; with batch axes the order computed above
+            # (batch, lhs free, rhs free) already lists every label once
             rhs_out_order = lhs_lbl + rhs_lbl
 
         if not lhs_free and not rhs_free:
